@@ -432,6 +432,10 @@ pub fn map_op<const N: usize>(cx: &mut Cx, m: &mut MapN<N>, op: &MapOp) -> Strin
         MapOp::Len => format!("{}", mm(|| m.len())),
         MapOp::IsEmpty => format!("{}", mm(|| m.is_empty()) as u8),
         MapOp::Capacity => format!("{}", mm(|| m.capacity())),
+        #[cfg(feature = "serde")]
+        MapOp::SerdeWrong => serde_rt::wrong_map::<N>(),
+        #[cfg(not(feature = "serde"))]
+        MapOp::SerdeWrong => "[unsupported]".into(),
         MapOp::Defaults => {
             let d: MapN<N> = mm(Map::default);
             let mut out = vec![format!("{}", mm(|| d.len())), format!("{}", mm(|| d.capacity()))];
@@ -783,6 +787,10 @@ pub fn set_op<const N: usize>(cx: &mut Cx, s: &mut SetN<N>, op: &SetOp) -> Strin
         SetOp::Len => format!("{}", mm(|| s.len())),
         SetOp::IsEmpty => format!("{}", mm(|| s.is_empty()) as u8),
         SetOp::Capacity => format!("{}", mm(|| s.capacity())),
+        #[cfg(feature = "serde")]
+        SetOp::SerdeWrong => serde_rt::wrong_set::<N>(),
+        #[cfg(not(feature = "serde"))]
+        SetOp::SerdeWrong => "[unsupported]".into(),
         SetOp::Defaults => {
             let d: SetN<N> = mm(Set::default);
             format!("[{},{}]", mm(|| d.len()), mm(|| d.capacity()))
@@ -1035,6 +1043,24 @@ pub mod serde_rt {
         match r {
             Ok((m, used)) if used == b.len() => Some(m),
             _ => None,
+        }
+    }
+    pub fn wrong_map<const N: usize>() -> String {
+        use serde::de::value::{BoolDeserializer, Error};
+        use serde::Deserialize;
+        let r: Result<MapN<N>, Error> = crate::ctl::mm(|| MapN::<N>::deserialize(BoolDeserializer::new(true)));
+        match r {
+            Ok(_) => "\"accepted\"".into(),
+            Err(e) => super::esc(&e.to_string()),
+        }
+    }
+    pub fn wrong_set<const N: usize>() -> String {
+        use serde::de::value::{BoolDeserializer, Error};
+        use serde::Deserialize;
+        let r: Result<SetN<N>, Error> = crate::ctl::mm(|| SetN::<N>::deserialize(BoolDeserializer::new(true)));
+        match r {
+            Ok(_) => "\"accepted\"".into(),
+            Err(e) => super::esc(&e.to_string()),
         }
     }
     pub fn encode_set<const N: usize>(m: &SetN<N>) -> Option<(u64, usize, Vec<u8>)> {
